@@ -9,7 +9,6 @@
 -/
 import Lean.Data.Json
 import TypedpyModel.Sem.Sched
-import TypedpyModel.Props.C20
 namespace Typedpy.Drive.Sched
 open Lean (Json)
 open Typedpy.Sched
@@ -40,11 +39,11 @@ def callOfJson (j : Json) : Except String Call := do
   | s => throw s!"unknown call kind {s}"
 
 def stepLetter : Step → String
-  | .writeShared .. => "W"
+  | .writeShared c n => s!"W{c}={n}"
   | .newTemp => "N"
-  | .storeTemp .. => "S"
-  | .loadTemp .. => "R"
-  | .emit .. => "E"
+  | .storeTemp c _ _ => s!"S{c}"
+  | .loadTemp c => s!"R{c}"
+  | .emit _ => "E"
 
 def outcomeToJson : Option Outcome → Json
   | none => .null
@@ -72,6 +71,6 @@ def run (j : Json) : Except String Json := do
     ("progs", Json.arr (progs.map fun p => Json.arr (p.map fun s => Json.str (stepLetter s)).toArray).toArray),
     ("seq", Json.arr (progs.map fun p => outcomeToJson (sequentialResult sh p)).toArray),
     ("runs", Json.arr runs.toArray),
-    ("conflictFree", .bool (Typedpy.C20.conflictFreeB progs))])
+    ("conflictFree", .bool (conflictFreeB progs))])
 
 end Typedpy.Drive.Sched
